@@ -237,8 +237,27 @@ def case_history(ctx, case):
             # name can be removed exactly once
             name = rng.choice(list(shadow))
             vals = [code(p_, step + 500) for p_ in table]
-            how = rng.choice(['list', 'callable', 'constant'])
-            if how == 'list':
+            how = rng.choice(['list', 'callable', 'constant', 'numpy', 'numpy'])
+            if how == 'numpy':
+                # an array of ANY element kind over whatever the name held before (ints over floats, floats over ints, strings, ...)
+                dt = rng.choice(['int', 'float', 'object', 'bigint', 'str', 'bool'])
+                if dt == 'float':
+                    vals = [v + 0.25 for v in vals]
+                elif dt == 'bigint':
+                    vals = [2 ** 53 + 1 + 2 * v for v in vals]
+                elif dt == 'str':
+                    vals = [f'n{v}' for v in vals]
+                elif dt == 'bool':
+                    vals = [bool(v % 2) for v in vals]
+                elif dt == 'object':
+                    vals = [v if i % 2 else f'o{v}' for i, v in enumerate(vals)]
+                arr = np.array(vals, dtype={'int': np.int64, 'bigint': np.int64, 'float': np.float64, 'object': object, 'str': object,
+                                            'bool': np.bool_}[dt])
+                env.add_cell_component(name, arr)
+                how = 'numpy:' + dt
+                ctx.count('re_added_from_array')
+                arr[:] = arr[::-1].copy()      # and the caller's array changes afterwards
+            elif how == 'list':
                 env.add_cell_component(name, list(vals))
             elif how == 'callable':
                 env.add_cell_component(name, lambda pos, cells, st=step: code(pos, st + 500))
